@@ -120,6 +120,7 @@ def run_sequence(fmt: str, eps: int, seq: list, readers=("sync",)) -> dict:
                                  metadata=Metadata(description="wseq"),
                                  dataset_structure=structure3(fmt, eps))
         shared: dict = {"k": "init"}
+        nested: dict = {"k": {"v": "init"}, "l": ["init", 1]}
         calls = []  # (idx, split, validity, meta value snapshot, accepted)
         try:
             with dataset.filler() as filler:
@@ -130,6 +131,12 @@ def run_sequence(fmt: str, eps: int, seq: list, readers=("sync",)) -> dict:
                         arg = {"k": meta}
                     elif meta == "E":  # explicit empty dict
                         arg = {}
+                    elif meta[0] == "N":
+                        # one shared object whose NESTED values are updated
+                        # in place (a shallow copy keeps aliasing them)
+                        nested["k"]["v"] = meta[1]
+                        nested["l"][0] = meta[1]
+                        arg = nested
                     else:
                         shared["k"] = meta[1]
                         arg = shared
@@ -157,6 +164,8 @@ def run_sequence(fmt: str, eps: int, seq: list, readers=("sync",)) -> dict:
                                     f" raised {err}"))
                 # the caller keeps using its object after the last write
                 shared["k"] = "Z"
+                nested["k"]["v"] = "Z"
+                nested["l"].append("Z")
         except Exception as e:  # pylint: disable=broad-except
             tb = traceback.extract_tb(e.__traceback__)
             bad.append(("C18", "exit-fails",
@@ -164,6 +173,7 @@ def run_sequence(fmt: str, eps: int, seq: list, readers=("sync",)) -> dict:
                         f"{type(e).__name__} in {tb[-1].name}: {str(e)[:120]}"))
             return {"seq": seq, "violations": bad, "calls": calls}
         shared["k"] = "Z2"
+        nested["k"]["v"] = "Z2"
 
         # ---- decode everything -----------------------------------------
         info = D.load_json(root / "dataset_info.json")
